@@ -3,7 +3,7 @@ import json
 import os
 
 from mirsym import models_typst as T
-from . import conserve
+from . import conserve, deep
 
 EXPLANATION = (
     "Bounded symbolic execution (MIR->SMT, z3), mechanism level: NOT the end-to-end statement (that needs the Typst parser as oracle on "
@@ -15,6 +15,10 @@ EXPLANATION = (
     "document (everything except blanks, commas, semicolons, parentheses and braces) equals that of the node's source text: no token "
     "is added, dropped, duplicated or reordered by the construct's own converter. Constructs that the encoder cannot execute are listed "
     "in the evidence and not claimed; the constructs in units/conserve_expected.json must stay decidable or the run is inconclusive. "
+    "The same obligation is then decided with NOTHING opaque: every shape again with all nested converters executed from their MIR "
+    "(`deep`; quick: the same shapes, thorough: up to 2000 shapes per kind of up to 60 nodes, about 9000 shapes), and a list of small "
+    "whole documents through AttrStore::new + convert_markup with the blanks of every whitespace token symbolic. Tokens and comments are "
+    "compared separately (a comment may move across a token of its own construct; the order of comments is kept). "
     "Statement boundaries, operator grouping by parentheses, indentation-derived nesting and everything that depends on the renderer's "
     "width decisions are outside the claim.")
 
@@ -24,6 +28,16 @@ def run(S):
     per_kind = 40 if S.tier == 'quick' else 150
     found, cov = conserve.explore(S, want=('C01',), per_kind=per_kind, max_nodes=18 if S.tier == 'quick' else 26)
     conserve.report(S, 'C01', found)
+    # nothing opaque: nested converters real
+    found2, cov2 = conserve.explore(S, want=('C01',), per_kind=40 if S.tier == 'quick' else 2000, max_nodes=18 if S.tier == 'quick' else 60, deep=True)
+    conserve.report(S, 'C01', found2)
+    undecided = sum(c['shapes'] - c['decided'] for c in cov2.values())
+    if undecided * 20 > sum(c['shapes'] for c in cov2.values()):
+        S.inconclusive.append('deep conservation: %d shapes could not be executed with nested converters real (encoder gaps, see evidence)' % undecided)
+    found3, cov3 = deep.explore(S, want=('C01',))
+    deep.report(S, 'C01', found3)
+    if cov3['decided'] < cov3['docs']:
+        S.inconclusive.append('deep documents: %r' % (cov3['gaps'][:3],))
     decided = sum(c['decided'] for c in cov.values())
     if decided < 100:
         S.inconclusive.append('vacuity: only %d construct shapes were decided' % decided)
